@@ -560,7 +560,7 @@ def gen_minmax_pair(rng):
 
 def special_cases(rng, tier):
     cases = []
-    nn = 10 if tier == "quick" else 80
+    nn = 24 if tier == "quick" else 120
     for i in range(nn):
         sa, sb, tol = gen_pair_at(rng, None)
         if i % 2 == 0:
@@ -570,7 +570,7 @@ def special_cases(rng, tier):
             extra.coord = [Fraction(rng.randint(-64, 64), 16) for _ in range(3)]
             cases.append({"kind": "basis", "stream": "near", "basis": [s.to_json() for s in (sa, sb, extra)],
                           "tols": [str(tol)], "model_tol": -1, "model_none": False})
-    ne = 16 if tier == "quick" else 120
+    ne = 32 if tier == "quick" else 200
     for i in range(ne):
         e = 20 if i % 4 < 2 else 27
         f = 1 + Fraction(1 if i % 2 == 0 else -1, 2 ** e)
@@ -581,7 +581,7 @@ def special_cases(rng, tier):
         else:
             cases.append({"kind": "basis", "stream": "edge", "basis": [sa.to_json(), sb.to_json()],
                           "tols": [str(tol)], "model_tol": 0, "model_none": False})
-    nm = 12 if tier == "quick" else 100
+    nm = 24 if tier == "quick" else 150
     for i in range(nm):
         sa, sb, tol = gen_minmax_pair(rng)
         if i % 3 != 2:
@@ -591,7 +591,7 @@ def special_cases(rng, tier):
             cases.append({"kind": "basis", "stream": "minmax", "basis": [sa.to_json(), sb.to_json()],
                           "tols": [str(tol)], "model_tol": 0, "model_none": False})
     # block level, random: several tolerances and None on one pair
-    nb = 16 if tier == "quick" else 150
+    nb = 32 if tier == "quick" else 200
     for i in range(nb):
         sa = c20_shell(rng, l=i % 4, kmax=4, mmax=3, sph=False)
         sb = c20_shell(rng, l=(i // 4) % 4, kmax=4, mmax=3, sph=False)
@@ -611,7 +611,7 @@ def special_cases(rng, tier):
 def gen_cases(tier, seed):
     rng = random.Random(2000003 * seed + 20)
     cases = []
-    nb = 36 if tier == "quick" else 400
+    nb = 96 if tier == "quick" else 600
     for i in range(nb):
         stream = "grid" if i % 6 == 5 else "rand"
         bits = 53 if (tier == "thorough" and i % 10 == 7) else 8
